@@ -11,7 +11,7 @@ LEVEL = "model_checking"
 
 def parsed_len_event(args):
     """a message obtained by *decoding* (possibly with unknown fields / shadowed occurrences): len, dump, delimited"""
-    schema, ty, val, b, tag = args
+    schema, ty, val, b, tag = args[:5]
     w = c02.dec_world(schema)
     ev = {"op": "len", "ty": ty, "res": "ok", "b": [], "len": -1, "dump": [], "sts": [], "delim": [], "case": {"ty": ty, "tag": tag, "src": list(b)}}
     try:
